@@ -116,6 +116,8 @@ def main(tier, seed, replay=None):
         o, e = quiet()
         # ---------------------------------------------------------------- discrete part
         AZIDE = [({"N_1"}, 2), ({"N_1", "N_2"}, 2), ({"C_R", "N_R"}, 1.41)]
+        # user rules for pairs that also have a built-in guess (homonuclear sp2 / aromatic, bonds to H_, sp3 and halogens): the user's rule wins
+        OVERRIDE = [({"C_2"}, 1), ({"C_R"}, 1), ({"C_R", "O_3"}, 1.5), ({"N_R"}, 2), ({"H_", "C_R"}, 1.25), ({"Cl", "C_R"}, 1.5)]
         pairs_all = list(itertools.product(types, types))
         if tier == "quick":
             pairs = rng.sample(pairs_all, 1500)
@@ -135,7 +137,7 @@ def main(tier, seed, replay=None):
                 out.append('("%s"%%string, "%s"%%string, BOuser %d %d)' % (l[0], l[-1], f.numerator, f.denominator))
             return "[%s]" % "; ".join(out)
         for a1, a2 in pairs:
-            for rules in (None, AZIDE):
+            for rules in (None, AZIDE, OVERRIDE):
                 with o, e:
                     g = ru.guess_bond_order(a1, a2, rules)
                     g2 = ru.guess_bond_order(a2, a1, rules)
@@ -144,7 +146,7 @@ def main(tier, seed, replay=None):
                 f = Fraction(g).limit_denominator(1000)
                 disc.append('OBond "%s"%%string "%s"%%string %s %d %d' % (a1, a2, rules_lit(rules or []), f.numerator, f.denominator))
                 run.cov["evaluations"] += 1
-        run.count("bond-order-guesses", len(pairs) * 2)
+        run.count("bond-order-guesses", len(pairs) * 3)
         for a2 in types:
             with o, e:
                 p = ru.angle_params("H_", a2, "H_")
